@@ -1080,6 +1080,14 @@ def main():
             rc = props.CHECKS[a.prop](run)
         sys.exit(rc)
     except Broken as e:
+        if run.violations:
+            # a later stage could not do its job, but earlier stages already observed the real code violating the property:
+            # those observations stand (the stage that broke is reported, it decides nothing)
+            log("  stage broken after violations were observed: %s" % str(e)[:300])
+            for v in run.violations:
+                log("  violation: " + v["what"])
+                log("VIOLATION property=%s replay=%s" % (a.prop, v["replay"]))
+            sys.exit(1)
         log("CHECK-BROKEN property=%s: %s" % (a.prop, e))
         sys.exit(2)
     finally:
